@@ -400,3 +400,25 @@ package oned
 //@   modifies counters[*]
 //@   loop 0: invariant 0 <= start && start <= old(start) && -1 <= numTransitionsLeft && numTransitionsLeft <= len(counters)
 //@   loop 0: decreases start
+
+// ---------------------------------------------------------------- implicit digits from the L/G parity pattern (C10)
+// EAN-13: the first digit is the index of the parity pattern in the table; an unknown pattern is NotFoundException
+//@ func ean13Reader_determineFirstDigit(lgPatternFound int) (r byte, e error)
+//@   property C10 C06
+//@   globals ean13Reader_FIRST_DIGIT_ENCODINGS
+//@   ensures e == nil ==> int(r) < 10 && ean13Reader_FIRST_DIGIT_ENCODINGS[int(r)] == lgPatternFound && (forall k int :: 0 <= k && k < int(r) ==> ean13Reader_FIRST_DIGIT_ENCODINGS[k] != lgPatternFound)
+//@   ensures e != nil ==> forall k int :: 0 <= k && k < 10 ==> ean13Reader_FIRST_DIGIT_ENCODINGS[k] != lgPatternFound
+//@   modifies nothing
+//@   loop 0: invariant 0 <= d && d <= 10 && (forall k int :: 0 <= k && k < d ==> ean13Reader_FIRST_DIGIT_ENCODINGS[k] != lgPatternFound)
+//@   loop 0: decreases 10 - d
+// UPC-E: number system and check digit are the row and column of the parity pattern in the table
+//@ func determineNumSysAndCheckDigit(resultString []byte, lgPatternFound int) (r []byte, e error)
+//@   property C10 C06
+//@   globals upce_NUMSYS_AND_CHECK_DIGIT_PATTERNS
+//@   requires len(resultString) >= 1 && len(resultString) <= 1000
+//@   ensures e == nil ==> len(r) == len(resultString) + 1 && 48 <= int(r[0]) && int(r[0]) <= 49 && 48 <= int(r[len(r)-1]) && int(r[len(r)-1]) <= 57 && upce_NUMSYS_AND_CHECK_DIGIT_PATTERNS[int(r[0]) - 48][int(r[len(r)-1]) - 48] == lgPatternFound
+//@   ensures e != nil ==> forall n int, k int :: 0 <= n && n <= 1 && 0 <= k && k < 10 ==> upce_NUMSYS_AND_CHECK_DIGIT_PATTERNS[n][k] != lgPatternFound
+//@   loop 0: invariant 0 <= int(numSys) && int(numSys) <= 2 && len(resultString) == old(len(resultString)) && (forall n int, k int :: 0 <= n && n < int(numSys) && 0 <= k && k < 10 ==> upce_NUMSYS_AND_CHECK_DIGIT_PATTERNS[n][k] != lgPatternFound)
+//@   loop 0: decreases 2 - int(numSys)
+//@   loop 1: invariant 0 <= int(numSys) && int(numSys) <= 1 && 0 <= int(d) && int(d) <= 10 && len(resultString) == old(len(resultString)) && (forall n int, k int :: 0 <= n && n < int(numSys) && 0 <= k && k < 10 ==> upce_NUMSYS_AND_CHECK_DIGIT_PATTERNS[n][k] != lgPatternFound) && (forall k int :: 0 <= k && k < int(d) ==> upce_NUMSYS_AND_CHECK_DIGIT_PATTERNS[int(numSys)][k] != lgPatternFound)
+//@   loop 1: decreases 10 - int(d)
